@@ -1,6 +1,6 @@
 (* C16 model driver: reads lifecycle scripts (the steps of harness/c16_harness.cpp with every program replaced by its measured
    effect on the counters) and prints the state line the extracted Coq model predicts after every step.
-   input : <id> <step> <step> ...      G<dsec>.<dlab>.<drel>.<dvregs>.<dja>  RS RH RI DA NE NH L1 L0 EL1 EL0 V1 V0 XA XD XN H
+   input : <id> <step> <step> ...      G<dsec>.<dlab>.<drel>.<dvregs>.<dja>.<pending after the program>  RS RH RI DA NE NH L1 L0 EL1 EL0 V1 V0 XA XD XN H
    output: S <id> a/b/c/... a/b/c/...  (same format as the harness) *)
 (* own number glue (the extracted module has positive/N only, so the shared zconv template does not apply) *)
 let rec pos_of_int (n : int) : Lifecycle.positive =
@@ -16,10 +16,10 @@ let step_of_token (t : string) : Lifecycle.step =
   let n = String.length t in
   if n > 0 && t.[0] = 'G' then begin
     match String.split_on_char '.' (String.sub t 1 (n - 1)) with
-    | [ds; dl; dr; dv; dj] ->
+    | [ds; dl; dr; dv; dj; pend] ->
       Lifecycle.SGen { Lifecycle.d_sec = cn_of_string ds; d_lab = cn_of_string dl; d_rel = cn_of_string dr;
                        d_nodes = cn_of_string "0"; d_vregs = cn_of_string dv; d_ja = cn_of_string dj;
-                       d_pending = false; d_final = false; d_res = cn_of_string "0" }
+                       d_pending = (pend = "1"); d_final = false; d_res = cn_of_string "0" }
     | _ -> failwith ("bad G token " ^ t)
   end else
     match t with
